@@ -7,7 +7,8 @@ import os, sys, subprocess, json, shutil, time
 FIXES = [("24fbb47", ["C02"]), ("70eae11", ["C02"]), ("bd0d83b", ["C02"]), ("436e8bc", ["C06"]), ("ce70aee", ["C05"]), ("007f82d", ["C07"]),
          ("9d4e87e", ["C04"]), ("37407ce", ["C04"]), ("31bac59", ["C15"]), ("beec7e9", ["C17"]), ("0ef61ee", ["C19"]), ("c35be22", ["C11"]),
          ("830172c", ["C11"]), ("93dbb52", ["C05"]), ("bdb9833", ["C08"]), ("fa67f1e", ["C06"]), ("839be6a", ["C06"]), ("a29fead", ["C06"]),
-         ("cff32f3", ["C02"]), ("efa07ab", ["C09"]), ("47ae72d", ["C08"]), ("4bff492", ["C11"]), ("31e1d65", ["C16"]), ("e36eb6d", ["C17"])]
+         ("cff32f3", ["C02"]), ("efa07ab", ["C09"]), ("47ae72d", ["C08"]), ("4bff492", ["C11"]), ("31e1d65", ["C16"]), ("e36eb6d", ["C17"]),
+         ("7478f56", ["C15"]), ("0ef3b03", ["C07"])]
 
 
 def sh(cmd, **kw):
@@ -45,5 +46,32 @@ def main():
         json.dump(out, open(sys.argv[1] if len(sys.argv) > 1 else "/tmp/fixtest.json", "w"), indent=1)
 
 
+def merge(result_path="/tmp/fixtest.json"):
+    """write / refresh the `fixed:` entries of known_findings.json from a result file of this tool"""
+    kf_path = os.path.join(os.path.dirname(os.path.dirname(os.path.abspath(__file__))), "known_findings.json")
+    kf = json.load(open(kf_path))
+    res = json.load(open(result_path))
+    byid = {e["id"]: e for e in kf}
+    for commit, props in FIXES:
+        if commit not in res:
+            continue
+        r = res[commit]
+        subj = r["subject"][len("fix:"):].strip() if r["subject"].startswith("fix:") else r["subject"]
+        det = [p for p, c in r["checks"].items() if c["exit"] == 1]
+        e = byid.get("FX-" + commit) or {"id": "FX-" + commit}
+        e.update({"properties": props, "status": "fixed", "commit": commit, "class": None, "params": {},
+                  "what": f"fixed: property={props[0]} {commit} {subj}", "reverted_detected": bool(det),
+                  "reverted_detected_by": det[0] if det else None,
+                  "first_violation_when_reverted": (r["checks"][det[0]]["first"].strip() if det else None)})
+        if e["id"] not in byid:
+            kf.append(e)
+            byid[e["id"]] = e
+    json.dump(kf, open(kf_path, "w"), indent=1)
+    print("merged", len([e for e in kf if e.get("status") == "fixed"]), "fixed entries")
+
+
 if __name__ == "__main__":
-    main()
+    if len(sys.argv) > 1 and sys.argv[1] == "--merge":
+        merge(*sys.argv[2:3])
+    else:
+        main()
